@@ -378,6 +378,34 @@ func checkC19(c *mc.Ctx) {
 			}
 		}
 	}
+	// long runs of skipped packets: every run length 0..110 at four start positions in a stream of 120 single-packet
+	// units on two PIDs - however many packets are skipped in a row, the next one that is not skipped is returned
+	{
+		cc := []uint8{0, 0}
+		var ps []*ref.Pkt
+		for i := 0; i < 120; i++ {
+			k := i % 2
+			ps = append(ps, Packetize(PESUnit(uint16(0x100+k), 0xc0, pesPayload(300+i, 40+i%7, c.Seed), uint64(i+1), true), nil, &cc[k], false)...)
+		}
+		b := EncodePkts(ps)
+		starts := []int{0, 1, 2, 7}
+		total := int64(len(starts) * 111 * 2)
+		done := mc.ParFor(total, c.OverBudget, func(i int64) {
+			api := []string{"packet", "data"}[i%2]
+			l := int(i / 2 % 111)
+			s0 := starts[i/2/111]
+			res, log, prob := runWithSkipper(b, api, func(call int, _ *astits.Packet) bool { return call >= s0 && call < s0+l })
+			fb := append(append([]byte{}, b[:s0*188]...), b[(s0+l)*188:]...)
+			want, p2 := runPlain(fb, api)
+			if prob != "" || p2 != "" || !equalStrs(res, want) || len(log) != len(ps) {
+				c.Rep.Report("skipper-differs-from-deletion:"+api, map[string]any{"kind": "stream", "stream": "skip-runs", "api": api, "skip_from": s0, "skip_run": l, "bytes": mc.Hex(b),
+					"message": fmt.Sprintf("packets %d..%d skipped: %d results, %d on the filtered stream (or contents differ); predicate consulted %d times for %d packets; %s %s", s0, s0+l-1, len(res), len(want), len(log), len(ps), prob, p2)})
+			}
+			c.Ev.Distinct(fmt.Sprintf("skip-runs|%s|%d|%d", api, s0, l))
+		})
+		c.Ev.Class("long-skip-run", done)
+		c.Ev.AddScenario(mc.Scenario{Name: "skip-runs", SpaceSize: total, Executed: done, Exhaustive: done == total, Bound: "120-packet stream: every run of 0..110 consecutive skipped packets starting at packet 0, 1, 2 or 7, NextPacket and NextData"})
+	}
 	// a stream that ends in the middle of units: a PMT and a PAT section whose last packet never comes, a
 	// PES cut short - the packets that did arrive are a unit each, handed to the parser when the stream ends
 	{
@@ -408,7 +436,7 @@ func checkC19(c *mc.Ctx) {
 		}
 		c19Parsers(c, st, refPk)
 	}
-	c.Ev.Require("mixed-skip-vector", "skip-vector-with-auto-detection", "skip-vector-with-parser", "structured-predicate", "parser-observer", "parser-replacer", "parser-replacer-returns-nothing", "parser-identity-replacer", "parser-constant-slice-replacer", "parser-failing-on-non-pat-unit")
+	c.Ev.Require("mixed-skip-vector", "long-skip-run", "skip-vector-with-auto-detection", "skip-vector-with-parser", "structured-predicate", "parser-observer", "parser-replacer", "parser-replacer-returns-nothing", "parser-identity-replacer", "parser-constant-slice-replacer", "parser-failing-on-non-pat-unit")
 }
 
 // IdenticalRunsStream carries runs of byte-identical packets (null packets with the same undefined
@@ -852,7 +880,7 @@ func checkC20(c *mc.Ctx) {
 		depth = 8
 	}
 	streams := c19Streams(c.Seed)
-	streams = append(streams, &Stream{Name: "big-payloads", Bytes: BigPayloadStream(c.Seed)}, MultiSectionStream(c.Seed), NetworkPIDStream(c.Seed, 0x10), NetworkPIDStream(c.Seed, 0x50), HeadlessStream(c.Seed), BrokenSectionStream(c.Seed), ESTypesStream(c.Seed), TSIDChangeStream(c.Seed))
+	streams = append(streams, &Stream{Name: "big-payloads", Bytes: BigPayloadStream(c.Seed)}, MultiSectionStream(c.Seed), NetworkPIDStream(c.Seed, 0x10), NetworkPIDStream(c.Seed, 0x50), HeadlessStream(c.Seed), BrokenSectionStream(c.Seed), ESTypesStream(c.Seed), TSIDChangeStream(c.Seed), PMTPIDTakeoverStream(c.Seed))
 	for _, st0 := range streams {
 		for _, cfg := range []struct {
 			auto bool
@@ -1060,6 +1088,24 @@ func TSIDChangeStream(seed int64) *Stream {
 	}
 	// video(1a) PAT-A PMT-A video(1b) video(2a) PAT-B video(2b) PMT-B video(3)
 	return BuildStream("transport-stream-id-changes", lists, []int{3, 0, 1, 3, 3, 0, 3, 2, 3}, nil)
+}
+
+// PMTPIDTakeoverStream: two programmes whose PMT PIDs change hands over three PATs - apart, both on the PID the
+// first one had, swapped - each PAT followed by the PMTs it announces.
+func PMTPIDTakeoverStream(seed int64) *Stream {
+	var ps []*ref.Pkt
+	c0 := uint8(5)
+	cp := map[uint16]*uint8{0x1000: new(uint8), 0x1001: new(uint8)}
+	ver := uint8(0)
+	for _, m := range [][2]uint16{{0x1000, 0x1001}, {0x1000, 0x1000}, {0x1001, 0x1000}} {
+		ps = append(ps, Packetize(PSIUnit(0, 0, [][]byte{SecPAT(modelPAT(1, m[0], 2, m[1]), ref.SecHdr{CNI: true, Version: ver})}, nil), nil, &c0, true)...)
+		for prog := 0; prog < 2; prog++ {
+			pmt := modelPMT(uint16(prog+1), uint16(0x100+prog), 1+prog)
+			ps = append(ps, Packetize(PSIUnit(m[prog], 0, [][]byte{SecPMT(pmt, ref.SecHdr{CNI: true, Version: ver})}, nil), nil, cp[m[prog]], true)...)
+		}
+		ver++
+	}
+	return &Stream{Name: "pmt-pid-takeover", Pkts: ps, Bytes: EncodePkts(ps)}
 }
 
 // VersionToggleStream: tables that change over time and come back to a version number they had before with
